@@ -142,7 +142,7 @@ type reqSpec struct {
 	headers map[string][]string
 	body    []byte
 	nilBody bool
-	reader  int // 0 bytes.Reader, 1 one byte per Read, 2 data together with io.EOF
+	reader  int // 0 bytes.Reader, 1 one byte per Read, 2 data together with io.EOF, 3 refuses reads after Close (as net/http bodies do)
 }
 
 type reqObs struct {
@@ -177,6 +177,29 @@ func (e *eofReader) Read(p []byte) (int, error) {
 		return n, io.EOF
 	}
 	return n, nil
+}
+
+// strictBody behaves like a net/http request body: once closed, every Read fails
+type strictBody struct {
+	mu     sync.Mutex
+	r      io.Reader
+	closed bool
+}
+
+func (b *strictBody) Read(p []byte) (int, error) {
+	b.mu.Lock()
+	defer b.mu.Unlock()
+	if b.closed {
+		return 0, errors.New("http: invalid Read on closed Body")
+	}
+	return b.r.Read(p)
+}
+
+func (b *strictBody) Close() error {
+	b.mu.Lock()
+	b.closed = true
+	b.mu.Unlock()
+	return nil
 }
 
 type lockedReader struct {
@@ -226,6 +249,8 @@ func (s reqSpec) build() *proxy.Request {
 			r.Body = io.NopCloser(&lockedReader{r: oneByteReader{bytes.NewReader(b)}})
 		case 2:
 			r.Body = io.NopCloser(&lockedReader{r: &eofReader{b}})
+		case 3:
+			r.Body = &strictBody{r: bytes.NewReader(b)}
 		default:
 			r.Body = io.NopCloser(&lockedReader{r: bytes.NewReader(b)})
 		}
@@ -402,12 +427,12 @@ func requestCatalogue(r *rng.R) []reqSpec {
 	var res []reqSpec
 	for bi, b := range bodies {
 		for si, s := range shapes {
-			for rd := 0; rd < 3; rd++ {
+			for rd := 0; rd < 4; rd++ {
 				if b.nilB && rd > 0 {
 					continue
 				}
 				// keep the catalogue moderate: every body with every reader once, shapes rotated
-				if (bi+si+rd)%2 == 1 && !(si == 1 && rd == 0) {
+				if (bi+si+rd)%2 == 1 && !(si == 1 && rd == 0) && !(rd == 3 && len(b.b) == 0) {
 					continue
 				}
 				x := s
@@ -437,12 +462,61 @@ type observation struct {
 	caller  *reqObs // scribble runs: the caller's own request after the call (maps only)
 }
 
+// respReg makes the responses of the stub backend calls of one case and recognises them
+// again.  The response of at most one slot carries EMPTY data (nil or an empty map): a
+// complete answer is complete whatever it contains.
+type respReg struct {
+	mu        sync.Mutex
+	nonce     string
+	emptySlot int // -1: none
+	nilData   bool
+	made      map[*proxy.Response]int
+}
+
+func newRespReg(nonce string, emptySlot int, nilData bool) *respReg {
+	return &respReg{nonce: nonce, emptySlot: emptySlot, nilData: nilData, made: map[*proxy.Response]int{}}
+}
+
+func (g *respReg) mk(i int, complete bool) *proxy.Response {
+	data := map[string]interface{}{"who": i, "nonce": g.nonce}
+	if i == g.emptySlot {
+		data = map[string]interface{}{}
+		if g.nilData {
+			data = nil
+		}
+	}
+	r := &proxy.Response{Data: data, IsComplete: complete}
+	g.mu.Lock()
+	g.made[r] = i
+	g.mu.Unlock()
+	return r
+}
+
+// identify: the slot whose response r is (the very object, or a copy with the same content);
+// 9999 when it is none of this case's
+func (g *respReg) identify(r *proxy.Response) int {
+	g.mu.Lock()
+	i, ok := g.made[r]
+	g.mu.Unlock()
+	if ok {
+		return i
+	}
+	if who, ok := r.Data["who"].(int); ok && r.Data["nonce"] == g.nonce && len(r.Data) == 2 {
+		return who
+	}
+	if len(r.Data) == 0 && g.emptySlot >= 0 {
+		return g.emptySlot
+	}
+	return 9999
+}
+
 type runCfg struct {
 	watchdog time.Duration
 	timeout  time.Duration
 	inst     *instance // nil: a fresh middleware instance for this run
 	scribble bool      // attempts record one after the other, each then writes junk into ITS request
 	errVals  []error   // per slot: the error value of a KError attempt
+	reg      *respReg  // makes and recognises the responses of this case
 }
 
 // instance: ONE middleware instance serving many calls (instance-reuse streams).  The
@@ -531,15 +605,15 @@ func runOnce(n int, kinds []int, order []int, parentAfter int, rs reqSpec, nonce
 		<-gates[i]
 		switch k {
 		case kComplete:
-			return &proxy.Response{Data: map[string]interface{}{"who": i, "nonce": nonce}, IsComplete: true}, nil
+			return rc.reg.mk(i, true), nil
 		case kIncomplete:
-			return &proxy.Response{Data: map[string]interface{}{"who": i, "nonce": nonce}, IsComplete: false}, nil
+			return rc.reg.mk(i, false), nil
 		case kError:
 			return nil, rc.errVals[i]
 		case kIncompleteErr:
-			return &proxy.Response{Data: map[string]interface{}{"who": i, "nonce": nonce}, IsComplete: false}, rc.errVals[i]
+			return rc.reg.mk(i, false), rc.errVals[i]
 		case kCompleteErr:
-			return &proxy.Response{Data: map[string]interface{}{"who": i, "nonce": nonce}, IsComplete: true}, rc.errVals[i]
+			return rc.reg.mk(i, true), rc.errVals[i]
 		}
 		return nil, nil
 	}
@@ -656,7 +730,7 @@ func runOnce(n int, kinds []int, order []int, parentAfter int, rs reqSpec, nonce
 
 // runFree: one call through a shared instance whose attempts answer at once (no gates, the
 // arrival order is whatever the scheduler makes it); used by the concurrent-reuse stream.
-func runFree(inst *instance, kinds []int, errVals []error, rs reqSpec, nonce string) (obs observation) {
+func runFree(inst *instance, kinds []int, errVals []error, reg *respReg, rs reqSpec, nonce string) (obs observation) {
 	n := len(kinds)
 	slot := make(chan int, n+8)
 	for i := 0; i < n+8; i++ {
@@ -680,15 +754,15 @@ func runFree(inst *instance, kinds []int, errVals []error, rs reqSpec, nonce str
 		}
 		switch kinds[i] {
 		case kComplete:
-			return &proxy.Response{Data: map[string]interface{}{"who": i, "nonce": nonce}, IsComplete: true}, nil
+			return reg.mk(i, true), nil
 		case kIncomplete:
-			return &proxy.Response{Data: map[string]interface{}{"who": i, "nonce": nonce}, IsComplete: false}, nil
+			return reg.mk(i, false), nil
 		case kError:
 			return nil, errVals[i]
 		case kIncompleteErr:
-			return &proxy.Response{Data: map[string]interface{}{"who": i, "nonce": nonce}, IsComplete: false}, errVals[i]
+			return reg.mk(i, false), errVals[i]
 		case kCompleteErr:
-			return &proxy.Response{Data: map[string]interface{}{"who": i, "nonce": nonce}, IsComplete: true}, errVals[i]
+			return reg.mk(i, true), errVals[i]
 		}
 		return nil, nil
 	}
@@ -745,7 +819,7 @@ func runFree(inst *instance, kinds []int, errVals []error, rs reqSpec, nonce str
 }
 
 // run with validation: repeat tainted runs with longer budgets; confirm watchdog hits once
-func runScenario(inst *instance, scribble bool, n int, kinds []int, errVals []error, order []int, parentAfter int, rs reqSpec, nonce string, stats map[string]int) observation {
+func runScenario(inst *instance, scribble bool, n int, kinds []int, errVals []error, reg *respReg, order []int, parentAfter int, rs reqSpec, nonce string, stats map[string]int) observation {
 	hasSilent := false
 	for _, k := range kinds {
 		if k == kSilent {
@@ -763,7 +837,7 @@ func runScenario(inst *instance, scribble bool, n int, kinds []int, errVals []er
 		if hasSilent {
 			wdog += timeout // such runs legitimately last as long as the budget
 		}
-		obs, tainted := runOnce(n, kinds, order, parentAfter, rs, nonce, runCfg{watchdog: wdog, timeout: timeout, inst: inst, scribble: scribble, errVals: errVals})
+		obs, tainted := runOnce(n, kinds, order, parentAfter, rs, nonce, runCfg{watchdog: wdog, timeout: timeout, inst: inst, scribble: scribble, errVals: errVals, reg: reg})
 		if obs.hang != "" {
 			// a watchdog is only believed when it fires twice, the second time after a minute
 			hangs++
@@ -858,13 +932,10 @@ func main() {
 
 	// render: the Gallina term and the human form of one observed run; proj: the part of the
 	// observation that is the same for every run of the same input without interference
-	render := func(stream string, free bool, n int, kinds []int, flavors []int, errVals []error, order []int, parentAfter int, rs reqSpec, nonce string, obs observation) (term string, js map[string]interface{}, proj string) {
+	render := func(stream string, free bool, n int, kinds []int, flavors []int, errVals []error, reg *respReg, order []int, parentAfter int, rs reqSpec, nonce string, obs observation) (term string, js map[string]interface{}, proj string) {
 		respCoq, respJS := "None", interface{}(nil)
 		if obs.resp != nil {
-			id := 9999
-			if who, ok := obs.resp.Data["who"].(int); ok && obs.resp.Data["nonce"] == nonce && len(obs.resp.Data) == 2 {
-				id = who
-			}
+			id := reg.identify(obs.resp)
 			respCoq = emit.Some(emit.App("mkResp", emit.N(uint64(id)), emit.Bool(obs.resp.IsComplete)))
 			respJS = map[string]interface{}{"id": id, "complete": obs.resp.IsComplete}
 			proj = fmt.Sprintf("resp(%d,%v)", id, obs.resp.IsComplete)
@@ -934,7 +1005,7 @@ func main() {
 		}
 		js = map[string]interface{}{
 			"stream": stream, "n": n, "kinds": ks, "order": order, "parent_cancelled_after": parentAfter,
-			"request": in.js(), "request_variant": rs.name, "order_imposed": !free, "error_values": fl,
+			"request": in.js(), "request_variant": rs.name, "order_imposed": !free, "error_values": fl, "empty_data_slot": reg.emptySlot,
 			"observed": map[string]interface{}{"response": respJS, "error": errJS, "attempts_started": obs.started, "seen": seenJS},
 		}
 		return term, js, proj
@@ -967,6 +1038,7 @@ func main() {
 
 	scribble := false
 	forceFlavor := -1
+	forceEmpty := -1
 	emitOn := func(inst *instance, stream string, n int, kinds []int, order []int, parentAfter int, ri int) {
 		if aborted {
 			return
@@ -989,7 +1061,21 @@ func main() {
 			}
 		}
 		errVals := errValues(kinds, flavors, nonce)
-		obs := runScenario(inst, scribble, n, kinds, errVals, order, parentAfter, rs, nonce, stats)
+		// the response of one slot carries empty data (two cases in three; nil and {} alternate)
+		emptySlot := -1
+		if forceEmpty >= 0 {
+			emptySlot = forceEmpty
+		} else if w.N()%3 != 0 {
+			emptySlot = (w.N() / 3) % len(kinds)
+		}
+		if emptySlot >= 0 && (kinds[emptySlot] == kError || kinds[emptySlot] == kEmpty || kinds[emptySlot] == kSilent) {
+			emptySlot = -1
+		}
+		if emptySlot >= 0 {
+			w.Count("response_with_empty_data:" + kindNames[kinds[emptySlot]])
+		}
+		reg := newRespReg(nonce, emptySlot, w.N()%2 == 0)
+		obs := runScenario(inst, scribble, n, kinds, errVals, reg, order, parentAfter, rs, nonce, stats)
 		if stats["watchdog_confirmed"] >= 2 {
 			aborted = true
 		}
@@ -1000,7 +1086,7 @@ func main() {
 				"", fmt.Sprintf("skipped|%d|%v|%v|%d|%s", n, kinds, order, parentAfter, rs.name), false)
 			return
 		}
-		term, js, _ := render(stream, false, n, kinds, flavors, errVals, order, parentAfter, rs, nonce, obs)
+		term, js, _ := render(stream, false, n, kinds, flavors, errVals, reg, order, parentAfter, rs, nonce, obs)
 		nontrivial := count(stream, n, kinds, rs, obs)
 		canon := fmt.Sprintf("%s|%d|%v|%v|%d|%s", stream, n, kinds, order, parentAfter, rs.name)
 		w.Add(term, js, "", canon, nontrivial)
@@ -1052,6 +1138,25 @@ func main() {
 		emitCase("corpus-error-values", 3, []int{kError, kError, kIncomplete}, []int{0, 1, 2}, -1, nextReq())
 	}
 	forceFlavor = -1
+	// a complete answer whose data is EMPTY (a {} body, everything filtered, no-op) is a complete
+	// answer: it ends collection whatever the siblings do afterwards
+	for _, c := range []struct {
+		kinds []int
+		order []int
+		empty int
+	}{
+		{[]int{kComplete, kError}, []int{0, 1}, 0},
+		{[]int{kComplete, kIncomplete}, []int{0, 1}, 0},
+		{[]int{kError, kComplete, kIncomplete}, []int{0, 1, 2}, 1},
+		{[]int{kComplete, kSilent}, []int{0}, 0},
+		{[]int{kComplete, kComplete}, []int{0, 1}, 0},
+		{[]int{kIncomplete, kError}, []int{0, 1}, 0},
+		{[]int{kComplete, kEmpty, kIncompleteErr}, []int{0, 1, 2}, 0},
+	} {
+		forceEmpty = c.empty
+		emitCase("corpus-empty-data", len(c.kinds), c.kinds, c.order, -1, nextReq())
+	}
+	forceEmpty = -1
 	// attempts that return a response AND an error together: one failure message each (the
 	// response is dropped); arriving before a sibling's complete answer, in numbers that would
 	// fill the N receives if such an attempt sent two messages
@@ -1275,8 +1380,12 @@ func main() {
 						flavors[i] = (ii + g + it + 2*i) % nFlavors
 					}
 					errVals := errValues(in.kinds, flavors, nonce)
-					obs := runFree(inst, in.kinds, errVals, rs, nonce)
-					term, js, proj := render("reuse-concurrent", true, 3, in.kinds, flavors, errVals, []int{0, 1, 2}, -1, rs, nonce, obs)
+					reg := newRespReg(nonce, (g+it)%4-1, it%2 == 0) // slot 0 (the only response of an input) often has empty data
+					if reg.emptySlot > 0 {
+						reg.emptySlot = -1
+					}
+					obs := runFree(inst, in.kinds, errVals, reg, rs, nonce)
+					term, js, proj := render("reuse-concurrent", true, 3, in.kinds, flavors, errVals, reg, []int{0, 1, 2}, -1, rs, nonce, obs)
 					key := fmt.Sprintf("%02d|%s", ii, proj)
 					fmu.Lock()
 					if _, ok := distinct[key]; !ok {
@@ -1367,5 +1476,5 @@ func main() {
 	}
 	w.Meta["request_catalogue"] = len(cat)
 	w.Meta["aborted_after_confirmed_watchdogs"] = aborted
-	w.Close(fmt.Sprintf("corpus; every outcome vector over {complete, incomplete, error, empty, silent}^N x every arrival order of the non-silent attempts for N=2..%d (silent attempts answer when the budget expires); parent context cancelled after k dequeues for N=2..3 (quick: a third of N=3); random N=4 (quick) and N=5..9; attempts returning a response AND an error together (kinds KIncompleteErr/KCompleteErr: corpus, every vector containing one for N=2..3 (quick: N=3 without silent, half), 1/6 of the random non-complete outcomes); failing attempts return rotating error VALUES (plain, context.Canceled/DeadlineExceeded bare and wrapped, *url.Error around a Client.Timeout error, Timeout()=true) while budget and parent are alive; scribbling attempts (each writes junk into the maps of its own request after recording it; 8 request variants incl. body-less, caller's request compared afterwards); instance reuse: one middleware instance serving sequences of 3-6 calls with different outcomes/orders/requests (2 corpus sequences + random ones) and 12 goroutines calling one instance at the same time (distinct (input, observation) pairs); %d request variants (method/url/path/query/params/headers x 10 bodies incl. nil, empty, binary, 64 KiB, 200 KiB x 3 reader behaviours) assigned round-robin to all scenarios; nontrivial = not all attempts complete", maxN, len(cat)), true)
+	w.Close(fmt.Sprintf("corpus; every outcome vector over {complete, incomplete, error, empty, silent}^N x every arrival order of the non-silent attempts for N=2..%d (silent attempts answer when the budget expires); parent context cancelled after k dequeues for N=2..3 (quick: a third of N=3); random N=4 (quick) and N=5..9; responses with EMPTY data (nil or {}) in one slot of two cases in three; request bodies that refuse reads after Close (net/http-like); attempts returning a response AND an error together (kinds KIncompleteErr/KCompleteErr: corpus, every vector containing one for N=2..3 (quick: N=3 without silent, half), 1/6 of the random non-complete outcomes); failing attempts return rotating error VALUES (plain, context.Canceled/DeadlineExceeded bare and wrapped, *url.Error around a Client.Timeout error, Timeout()=true) while budget and parent are alive; scribbling attempts (each writes junk into the maps of its own request after recording it; 8 request variants incl. body-less, caller's request compared afterwards); instance reuse: one middleware instance serving sequences of 3-6 calls with different outcomes/orders/requests (2 corpus sequences + random ones) and 12 goroutines calling one instance at the same time (distinct (input, observation) pairs); %d request variants (method/url/path/query/params/headers x 10 bodies incl. nil, empty, binary, 64 KiB, 200 KiB x 3 reader behaviours) assigned round-robin to all scenarios; nontrivial = not all attempts complete", maxN, len(cat)), true)
 }
